@@ -1121,17 +1121,21 @@ func (p *partition) handleReplicationResponse(msg *nats.Msg) int {
 		return 0
 	}
 
+	// The read lock is held until the response has been applied to the log.
+	// Closing the partition (pause, delete, shutdown), a leader change and the
+	// log reconciliation that follows it all take the write lock, so none of
+	// them can slip in between the checks below and the append: the answer of
+	// a leader this replica has stopped following is never appended, and the
+	// log is not closed underneath the append (which would panic).
 	p.mu.RLock()
+	defer p.mu.RUnlock()
 	if !p.isFollowing {
-		p.mu.RUnlock()
 		return 0
 	}
 
 	if p.LeaderEpoch != leaderEpoch {
-		p.mu.RUnlock()
 		return 0
 	}
-	p.mu.RUnlock()
 
 	// Update HW from leader's HW, but only once the messages in this response
 	// have been appended and never beyond the end of the local log. The
